@@ -1,5 +1,5 @@
 """C41 Domain-name ACLs match exactly the configured domain sets — E1, every ordered list over a value pool."""
-from vverif import seq
+from vverif import seq, seqla
 from vverif.core import Result, HarnessError
 
 LEVEL = 'exploration'
@@ -15,7 +15,7 @@ ASSUME = ['hosts are probed without a leading dot (matchDomainName() strips lead
 
 
 def _build(ctx):
-    return seq.build(ctx, 'tests/testCacheManager', ['C41_domain.cc'])
+    return seqla.build(ctx, 'tests/testCacheManager', ['C41_domain.cc'])
 
 
 def run(ctx):
